@@ -257,7 +257,7 @@ func runTwoSeq(t *testing.T, idx int, pl twoSeqPlan) {
 			probeAll("final", -1)
 		}
 		for i, c := range cs {
-			stopCheck(c, fmt.Sprintf("twoseq-cache%d", i), violation)
+			stopCheckN(c, "twoseq", len(cs)-1-i, violation)
 		}
 	})
 	finishBubble(idx, res, "twoseq", violation)
@@ -294,7 +294,7 @@ func (p twoConcPlan) String() string {
 
 func genTwoConc(rng *mon.RNG) twoConcPlan {
 	return twoConcPlan{
-		procs:     rng.PickInt(1, 1, 2, 4, 0, 0),
+		procs:     rng.PickInt(2, 2, 2, 3, 4, 1, 0),
 		rounds:    rng.Range(8, 24),
 		nexp:      rng.PickInt(8, 8, 16, 64),
 		nlive:     rng.Range(2, 6),
@@ -342,6 +342,13 @@ func runTwoConc(t *testing.T, idx int, pl twoConcPlan) {
 		if pl.third {
 			others = append(others, ttlcache.NewCache[string](ttlcache.CacheOptions{CleanupInterval: farInterval, MaxTTL: 50}))
 		}
+		// whatever happens below, no cleaner goroutine may outlive the bubble
+		defer func() {
+			a.Stop()
+			for _, o := range others {
+				o.Stop()
+			}
+		}()
 		live := make([]string, pl.nlive)
 		for i := range live {
 			live[i] = twoLiveKey(i)
@@ -475,9 +482,9 @@ func runTwoConc(t *testing.T, idx int, pl twoConcPlan) {
 				return
 			}
 		}
-		stopCheck(a, "twoconc-cacheA", violation)
-		for _, o := range others {
-			stopCheck(o, "twoconc-other", violation)
+		stopCheckN(a, "twoconc", len(others), violation)
+		for i, o := range others {
+			stopCheckN(o, "twoconc", len(others)-1-i, violation)
 		}
 	})
 	finishBubble(idx, res, "twoconc", violation)
